@@ -35,6 +35,9 @@ pub enum PgOp {
     /// the "get PC" idiom: a call whose target is the very next address
     /// (0: `jsr L` / `L:`, 1: `lea r3 L; jsrr r3` / `L:`, 2: `call L` / `L: pop r3` with the stack feature)
     GetPc(u8),
+    /// write a short string across the top of memory (0xFFFE, 0xFFFF, 0x0000, 0x0001) through
+    /// pointers and print it with PUTS (false) / PUTSP (true): address arithmetic wraps
+    WrapStr(bool),
 }
 
 #[derive(Clone, Copy, Debug, Serialize, Deserialize, PartialEq, Eq, Hash)]
@@ -91,6 +94,7 @@ pub fn pg_op() -> impl Strategy<Value = PgOp> {
         1 => (0u8..4, 0u8..4).prop_map(|(a, b)| PgOp::PushPop(a, b)),
         1 => Just(PgOp::Break),
         1 => (0u8..3).prop_map(PgOp::GetPc),
+        1 => any::<bool>().prop_map(PgOp::WrapStr),
     ]
 }
 
@@ -315,6 +319,17 @@ fn emit_ops(b: &mut B, ops: &[PgOp], spec: &ProgSpec, level: usize, nsubs: usize
                 }
             }
             PgOp::Break => b.brk = true,
+            PgOp::WrapStr(packed) => {
+                // only when the program itself does not live at the very bottom of memory
+                if origin_for(spec) >= 0x10 {
+                    for k in 0..4 {
+                        b.emit(Stmt::new(Op::Ld, &[0], lbl(&format!("V{}", k % 3))));
+                        b.emit(Stmt::new(Op::Sti, &[0], lbl(&format!("PW{k}"))));
+                    }
+                    b.emit(Stmt::new(Op::Ld, &[0], lbl("PW0")));
+                    b.emit(Stmt::simple(if *packed { Op::Putsp } else { Op::Puts }));
+                }
+            }
             PgOp::GetPc(k) => {
                 // only where R7 is free: main, or a subroutine in the JSR convention (which has saved R7)
                 let r7_free = level == 0 || !(spec.sub_call.get(level - 1).copied().unwrap_or(false) && spec.stack);
@@ -372,6 +387,8 @@ pub fn origin_for(spec: &ProgSpec) -> u16 {
         5 => 0xFC00,
         6 => 0x0200,
         7 => 0x7F80,
+        // only used by hand-made specs: a program that straddles the end of user space
+        200 => 0xFDF8,
         _ => spec.orig_val % 0xFC00,
     }
 }
@@ -467,6 +484,10 @@ pub fn build(spec: &ProgSpec) -> Built {
                 b.label(format!("Q{k}"));
             }
             b.emit(Stmt::new(Op::Fill, &[], Operand::Lit(Lit::Hex(0, 0))));
+        }
+        for (k, a) in [0xFFFEu16, 0xFFFF, 0x0000, 0x0001].iter().enumerate() {
+            b.label(format!("PW{k}"));
+            b.emit(Stmt::new(Op::Fill, &[], Operand::Lit(Lit::Hex(*a, 0))));
         }
         b.label("TGT".into());
         let tgt = match ending {
